@@ -23,10 +23,21 @@ from . import backends, c04, common, ir
 
 def patterns(p):
     mods = (p.module("tracer.optimizer.classical"), p.module("tracer.optimizer.graph"))
-    out = [c for c in p.classes.values() if c.module in mods and "__call__" in c.methods]
+    # concrete pattern classes: public classes of the two modules whose instances are callable (the method may be
+    # inherited from a shared base class with hook methods)
+    out = [c for c in p.classes.values() if c.module in mods and p.lookup_method(c, "__call__") is not None and not c.name.startswith("_") and not p.subclasses(c, strict=True)]
     if len(out) < 6:
         raise AnalysisError(f"anchor vanished: expected >= 6 optimizer patterns, found {[c.name for c in out]}")
     return out
+
+
+def pattern_call(p, clsname, module):
+    """__call__ of a pattern class as it runs for that class (hooks of a shared base class written out)"""
+    c = p.cls(clsname, module)
+    f = common.specialised(p, c, "__call__")
+    if f is None:
+        raise AnalysisError(f"anchor vanished: {clsname} is not callable")
+    return f
 
 
 def _perm_role(P, e):
@@ -55,7 +66,7 @@ def _index_comps(node):
 
 def r1(p, rep):
     rep.rule("C05.R1", "merged transpose = inner permutation indexed by the outer permutation", "T-DER [S]", floor=1)
-    f = p.func("SkipTranspose.__call__", "tracer.optimizer.classical")
+    f = pattern_call(p, "SkipTranspose", "tracer.optimizer.classical")
     P = Paths(p, f, identity_skipper(p))
     found = []
     # (a) the composition written in the pattern itself
@@ -101,7 +112,7 @@ def _firing_returns(f):
 
 def r2(p, rep):
     rep.rule("C05.R2", "merged reshape keeps the outer shape and the innermost operand", "T-DER [S]", floor=1)
-    f = p.func("SkipReshape.__call__", "tracer.optimizer.classical")
+    f = pattern_call(p, "SkipReshape", "tracer.optimizer.classical")
     P = Paths(p, f, identity_skipper(p))
     merges = [r for r in _firing_returns(f) if isinstance(r.value.elts[1], ast.Call) and norm(r.value.elts[1].func).endswith("python.call")]
     if not merges:
@@ -186,7 +197,7 @@ def r3_r4(p, rep):
     skipper = identity_skipper(p)
     n_drop = 0
     for c in patterns(p):
-        f = c.methods["__call__"]
+        f = common.specialised(p, c, "__call__")
         cfg = CFG(f.node)
         P = Paths(p, f, skipper)
         tr = f.params[2] if len(f.params) > 2 else "transform"
@@ -226,7 +237,18 @@ def r3_r4(p, rep):
                         elif "x.origin.input" in both and "x.origin.output" in both:
                             good.append(t)  # cast: signature(input) == signature(output)
                         elif ("x.origin.args[1]" in both) and ((".shape" in both) or (".ndim" in both)) and "x.origin.args[0]" in both:
-                            good.append(t)  # parameter of the node vs shape / rank of its operand
+                            # the node's parameter ITSELF is compared with something computed from the operand alone
+                            # (`perm == range(ndim)`, `shape == input.shape`); a test in which the parameter only selects
+                            # from the operand (`shape[p] for p in perm` == shape) also holds for non-identity parameters
+                            def bare(z):
+                                for wr in ("tuple(", "list("):
+                                    if z.startswith(wr) and z.endswith(")"):
+                                        z = z[len(wr) : -1]
+                                return z
+
+                            pa, pb = bare(a), bare(b)
+                            if (pa == "x.origin.args[1]" and "x.origin.args[1]" not in pb) or (pb == "x.origin.args[1]" and "x.origin.args[1]" not in pa):
+                                good.append(t)  # parameter of the node vs shape / rank of its operand
                     rep.add("C05.R3", key, site, bool(good), f"dropped only under `{norm(good[0])}`" if good else f"the node is dropped without an equality test between its parameter and its operand's shape/rank/signature (guards: {[(k, a, b, pol) for k, a, b, pol, t in rfacts][-3:]})")
             elif isinstance(e, ast.Call) and norm(e.func).endswith("python.call"):
                 subs = [a for a in ast.walk(e) if isinstance(a, ast.Call) and isinstance(a.func, ast.Name) and a.func.id == tr]
@@ -302,8 +324,24 @@ def r5(p, rep):
     body, x = arms["slice"]
     r = reads(body, x)
     calls = [n for st in body for n in ast.walk(st) if isinstance(n, ast.Call) and isinstance(n.func, ast.Name) and n.func.id == "slice"]
-    ok = {"start", "stop", "step"} <= r and any(len(c.args) == 3 for c in calls)
-    rep.add("C05.R5", f"{f.qualname}:rebuild:slice", site, ok, f"slice rebuilt from {sorted(r & {'start', 'stop', 'step'})} with a 3-argument slice(...)" if ok else f"the slice arm reads only {sorted(r)} / builds slice({[len(c.args) for c in calls]} args): a component of start/stop/step is dropped, e.g. x[::-1] silently becomes x[:]")
+    def nargs(c):
+        k = 0
+        for a in c.args:
+            if isinstance(a, ast.Starred):
+                v = a.value
+                # slice(*(f(i) for i in (x.start, x.stop, x.step))): as many arguments as the literal has elements
+                if isinstance(v, (ast.GeneratorExp, ast.ListComp)) and len(v.generators) == 1 and not v.generators[0].ifs and isinstance(v.generators[0].iter, (ast.Tuple, ast.List)):
+                    k += len(v.generators[0].iter.elts)
+                elif isinstance(v, (ast.Tuple, ast.List)):
+                    k += len(v.elts)
+                else:
+                    return None
+            else:
+                k += 1
+        return k
+
+    ok = {"start", "stop", "step"} <= r and any(nargs(c) == 3 for c in calls)
+    rep.add("C05.R5", f"{f.qualname}:rebuild:slice", site, ok, f"slice rebuilt from {sorted(r & {'start', 'stop', 'step'})} with a 3-argument slice(...)" if ok else f"the slice arm reads only {sorted(r)} / builds slice({[nargs(c) for c in calls]} args): a component of start/stop/step is dropped, e.g. x[::-1] silently becomes x[:]")
     body, x = arms["Graph"]
     r = reads(body, x)
     ok = {"inputs", "output", "name"} <= r
@@ -335,7 +373,7 @@ def r6(p, rep):
     rep.add("C05.R6", f"{f.qualname}:fresh-memo", f"{f.module.rel}:{w.lineno}", bool(ctor) and not ctor_outside, "Optimizer(...) (memo + changed flag) is constructed inside the loop, once per pass" if ctor and not ctor_outside else "the Optimizer (memo of rewritten nodes, changed flag) is reused across passes: stale entries map old nodes to results of an earlier pass / the loop never terminates or stops early")
     # leaves the loop only when nothing changed
     cfg = CFG(f.node)
-    breaks = [n for n in ast.walk(w) if isinstance(n, ast.Break)]
+    breaks = [n for n in ast.walk(w) if isinstance(n, (ast.Break, ast.Return))]  # every way out of the loop
     ok = False
     if isinstance(w.test, ast.Constant) and w.test.value is True:
         ok = bool(breaks) and all(any(norm(t).endswith(".changed") and pol is False for t, pol in cfg.guards(cfg.node_for(b))) for b in breaks)
@@ -427,7 +465,7 @@ def identity_skipper(p):
     """the function the optimiser uses to look through identity nodes: the callee that InlineGraph applies to the
     graph's output (found by role, so renaming / moving it is fine)"""
     ig = p.cls("InlineGraph", "tracer.optimizer.graph")
-    call = ig.methods["__call__"]
+    call = common.specialised(p, ig, "__call__")
     x = call.params[1]
     for n in walk_no_nested(call.node):
         if isinstance(n, ast.Call) and n.args and norm(n.args[0]) == f"{x}.output":
